@@ -37,19 +37,22 @@ Theorem c20_paused_keeps_checkpoint :
 Proof. intros S R G sch c. exact (paused_keeps_checkpoint sch c). Qed.
 Print Assumptions c20_paused_keeps_checkpoint.
 
-(* PBT.  The full statement
-     c20_pbt_clone_source_alive : forall prm c its pre j t post,
-        run (pbt_sched prm) c (init pbt0) its = pre ++ ECopy j t :: post -> deleted_in pre j = false
-   is FALSE of the faithful model (and of the code: findings/C20-pbt-clone-source-deleted.json). *)
-Theorem c20_pbt_clone_source_alive_refuted :
-  exists prm c its pre j t post,
-    delete_checkpoints c = true /\
-    run (pbt_sched prm) c (init pbt0) its = pre ++ ECopy j t :: post /\ deleted_in pre j = true.
-Proof.
-  exists wprm, wcfg, wits, wpre, 1%Z, 2%Z, wpost.
-  split; [reflexivity | exact pbt_clone_source_deleted_witness].
-Qed.
-Print Assumptions c20_pbt_clone_source_alive_refuted.
+(* PBT (pbt_sched = PopulationBasedTraining with the fix patches/F-C20-1.diff: _suggest
+   re-draws a clone source that was stopped after the clone decision, or starts a fresh
+   configuration).  For every schedule and batch order, the checkpoint a clone is started
+   from has never been deleted.
+   Before the fix the statement was false; the old theorem was
+     c20_pbt_clone_source_alive_refuted :
+       exists prm c its pre j t post, delete_checkpoints c = true /\
+         run (pbt_sched_unfixed prm) c (init pbt0) its = pre ++ ECopy j t :: post /\ deleted_in pre j = true
+   (witness: CheckpointProofs.pbt_clone_source_deleted_witness; real-code replay:
+   findings/C20-pbt-clone-source-deleted.json). *)
+Theorem c20_pbt_clone_source_alive :
+  forall prm c its pre j t post, speculative c = false ->
+    run (pbt_sched prm) c (init pbt0) its = pre ++ ECopy j t :: post ->
+    forall w, ~ In (EDelete j w) pre.
+Proof. exact pbt_clone_source_alive. Qed.
+Print Assumptions c20_pbt_clone_source_alive.
 
 (* partial version (holds for EVERY scheduler, hence for PBT): when no removal callback
    is installed, the checkpoint of a clone source is alive when it is copied PROVIDED the
@@ -78,7 +81,8 @@ Theorem c20_resume_has_checkpoint :
     (forall n s g s' sg, sinv n s -> suggest sch s n g = (s', sg) ->
        match sg with
        | SNone => sinv n s' /\ incl (needed s') (needed s)
-       | SNew | SFrom _ => sinv (n + 1)%Z s' /\ incl (needed s') (n :: needed s)
+       | SNew => sinv (n + 1)%Z s' /\ incl (needed s') (n :: needed s)
+       | SFrom j => sinv (n + 1)%Z s' /\ incl (needed s') (n :: needed s) /\ In j (needed s)
        | SResume i => sinv n s' /\ incl (needed s') (needed s) /\ In i (needed s)
        end) ->
     (forall n s s' l, sinv n s -> removables sch s = (s', l) ->
